@@ -135,9 +135,12 @@ class Minimize(Factory, Container):
             if not isinstance(q, numbers.Real):
                 raise TypeError(f"function return value ({q}) must be boolean or number")
 
+            float(q)  # a value that only looks like a number (numpy.timedelta64) fails here
+            replace = math.isnan(self.min) or q < self.min
+
             # no possibility of exception from here on out (for rollback)
             self.entries += weight
-            if math.isnan(self.min) or q < self.min:
+            if replace:
                 self.min = q
 
     def _numpy(self, data, weights, shape):
@@ -311,9 +314,12 @@ class Maximize(Factory, Container):
             if not isinstance(q, numbers.Real):
                 raise TypeError(f"function return value ({q}) must be boolean or number")
 
+            float(q)  # a value that only looks like a number (numpy.timedelta64) fails here
+            replace = math.isnan(self.max) or q > self.max
+
             # no possibility of exception from here on out (for rollback)
             self.entries += weight
-            if math.isnan(self.max) or q > self.max:
+            if replace:
                 self.max = q
 
     def _numpy(self, data, weights, shape):
